@@ -1109,6 +1109,26 @@ func plusRules(c *core.Ctx, pkg string) {
 		}
 	}
 	ok := cur != "" && pend != ""
+	// a presence flag (bool or two-valued enum) may shadow "the pending operand is still there": the constructor
+	// stores v0 next to a non-nil pending operand, the switch stores !v0 next to pending := nil, nothing else
+	// touches either - so flag == v0 <=> pending != nil, and a test of the flag is a test of the pending operand
+	flagF, flagV0 := "", ""
+	if stt, isS := nt.Underlying().(*types.Struct); isS {
+		for i := 0; i < stt.NumFields(); i++ {
+			ft := stt.Field(i).Type()
+			b, isB := ft.Underlying().(*types.Basic)
+			if isB && (b.Kind() == types.Bool || ir.IsBoolEnum(ft)) {
+				if flagF != "" {
+					flagF = "?"
+				} else {
+					flagF = stt.Field(i).Name()
+				}
+			}
+		}
+	}
+	if flagF == "?" {
+		flagF = ""
+	}
 	nilAtom := func(i int) *ir.Term {
 		return &ir.Term{Op: "bin", Aux: "==", Args: sorted2(ir.Nil, &ir.Term{Op: "param", Aux: ctor.Params[i].Name()})}
 	}
@@ -1146,6 +1166,13 @@ func plusRules(c *core.Ctx, pkg string) {
 				ok = false
 				c.Fail("eager-position", name, lastPos(p), "Plus must not advance or read its operands")
 			}
+			if flagF != "" && lit != nil {
+				if v := fieldOf2(lit, flagF); v != nil && v.IsConst() && (v.Aux == "true" || v.Aux == "false") && (flagV0 == "" || flagV0 == v.Aux) {
+					flagV0 = v.Aux
+				} else {
+					flagF = "" // not a constant presence flag
+				}
+			}
 		}
 	}
 	c.Check(ok, "eager-position", name, ctor.Pos(), "nil-aware concatenation", "shape not recognised")
@@ -1169,9 +1196,23 @@ func plusRules(c *core.Ctx, pkg string) {
 		inner := polarity(p, R)
 		pendNil := polarity(p, &ir.Term{Op: "bin", Aux: "==", Args: sorted2(ir.Nil, &ir.Term{Op: "load", Aux: "0", Args: []*ir.Term{{Op: "faddr", Aux: pend, Args: []*ir.Term{{Op: "param", Aux: next.Params[0].Name()}}}}})})
 		stores := nonLocalStores(p)
+		if flagF != "" && flagV0 != "" && pendNil == 0 {
+			if fp := polarity(p, &ir.Term{Op: "load", Aux: "0", Args: []*ir.Term{{Op: "faddr", Aux: flagF, Args: []*ir.Term{{Op: "param", Aux: next.Params[0].Name()}}}}}); fp != 0 {
+				if (fp > 0) == (flagV0 == "true") {
+					pendNil = -1 // flag still at its initial value: the pending operand is present
+				} else {
+					pendNil = 1
+				}
+			}
+		}
 		// does the path switch operands?  cur := old pend ; pend := nil
 		var setCur, setPend bool
+		nFlag := 0
 		for _, s := range stores {
+			if flagF != "" && flagV0 != "" && s.Kind == ir.KStore && s.A[0].Op == "faddr" && s.A[0].Aux == flagF && paramOf(s.A[0].Args[0], next, 0) &&
+				s.A[1].IsConst() && (s.A[1].Aux == "true" || s.A[1].Aux == "false") && s.A[1].Aux != flagV0 {
+				nFlag++
+			}
 			if s.Kind == ir.KStore && s.A[0].Op == "faddr" && paramOf(s.A[0].Args[0], next, 0) {
 				if s.A[0].Aux == cur && s.A[1].Op == "load" && s.A[1].Args[0].Op == "faddr" && s.A[1].Args[0].Aux == pend && s.A[1].Aux == "0" {
 					setCur = true
@@ -1182,6 +1223,10 @@ func plusRules(c *core.Ctx, pkg string) {
 			}
 		}
 		switched := setCur && setPend && len(stores) == 2
+		if flagF != "" && flagV0 != "" {
+			// the flag is flipped exactly together with the switch
+			switched = setCur && setPend && nFlag == 1 && len(stores) == 3
+		}
 		if len(stores) != 0 && !switched {
 			okN = false
 			c.Fail("next-protocol", nname, lastPos(p), "the only allowed state change is: current := pending, pending := nil (found %d stores)", len(stores))
